@@ -29,6 +29,8 @@ type Target interface {
 	dependencies() []string
 	generates() []string
 	info() targetInfo
+	// setInfo replaces the record returned by info with the record that has just been saved for the target.
+	setInfo(info targetInfo)
 	upToDate() (bool, string, diff.ValueDiff, error)
 	evaluate() (data string, changed bool, err error)
 }
@@ -120,7 +122,7 @@ func (t *runTarget) Evaluate(engine runner.Engine) error {
 		proj.events.TargetFailed(label, err)
 
 		// If the target fails, record that it must be re-run on the next build.
-		proj.saveTargetInfo(label, targetInfo{
+		t.saveInfo(targetInfo{
 			Doc:          t.target.Doc(),
 			Dependencies: depData,
 			Rerun:        true,
@@ -136,7 +138,7 @@ func (t *runTarget) Evaluate(engine runner.Engine) error {
 		data = info.Data
 	}
 	t.data = combineStamps(data, depData)
-	err = proj.saveTargetInfo(label, targetInfo{
+	err = t.saveInfo(targetInfo{
 		Doc:          t.target.Doc(),
 		Dependencies: depData,
 		Data:         data,
@@ -147,6 +149,16 @@ func (t *runTarget) Evaluate(engine runner.Engine) error {
 		return err
 	}
 	proj.events.TargetSucceeded(label, changed)
+	return nil
+}
+
+// saveInfo persists the given record for the target and makes it the record the target reports from now on: the
+// Project may be used for further runs, which must see what this run recorded rather than what was loaded.
+func (t *runTarget) saveInfo(info targetInfo) error {
+	if err := t.target.Project().saveTargetInfo(t.target.Label(), info); err != nil {
+		return err
+	}
+	t.target.setInfo(info)
 	return nil
 }
 
